@@ -71,6 +71,7 @@ func genConc9(prop string, seed uint64, tier string) Scenario {
 	if r.chance(1, 3) {
 		c.StallDen = r.pick(32, 128, 512)
 	}
+	c.ReuseBuf = r.chance(1, 2)
 	napi := 2 + r.n(5)
 	nnodes := 1 + r.n(3)
 	nops := 10 + r.n(50)
@@ -82,7 +83,8 @@ func genConc9(prop string, seed uint64, tier string) Scenario {
 	}
 	for i := 0; i < nops; i++ {
 		if r.chance(3, 5) {
-			sc.Ops = append(sc.Ops, Op{K: "api", T: r.n(napi), P: r.n(numAPI9), M: r.n(4), I: r.n(16), D: r.weighted([]int{8, 4, 4, 3, 2, 2, 1, 1, 1, 1})})
+			// X=1: wait for the next minute boundary first, so that the call meets the purge tick
+			sc.Ops = append(sc.Ops, Op{K: "api", T: r.n(napi), P: r.n(numAPI9), M: r.n(4), I: r.n(16), D: r.weighted([]int{8, 4, 4, 3, 2, 2, 1, 1, 1, 1}), X: r.pick(0, 0, 0, 1)})
 		} else {
 			sc.Ops = append(sc.Ops, Op{K: "frame", T: 20 + r.n(nnodes), P: r.n(9), M: r.n(4), I: r.n(16), N: r.n(64), D: r.weighted([]int{6, 4, 4, 3, 3, 2, 2, 1, 1, 2})})
 		}
@@ -93,7 +95,7 @@ func genConc9(prop string, seed uint64, tier string) Scenario {
 		sc.Ops = append(sc.Ops, Op{K: "fault", T: 40, P: r.n(3), N: 1 + r.n(3), D: r.n(10)})
 	}
 	// the closer: D selects when (possibly in the middle of the traffic)
-	sc.Ops = append(sc.Ops, Op{K: "close", T: 50, D: r.n(10), X: r.n(4), P: r.n(2)})
+	sc.Ops = append(sc.Ops, Op{K: "close", T: 50, D: r.n(10), X: r.weighted([]int{3, 2, 2, 2, 2, 1, 1, 1, 1}), P: r.n(2)})
 	return sc
 }
 
@@ -151,6 +153,12 @@ func runConc9(e *exec) {
 		}
 		switch o.K {
 		case "api":
+			if o.X == 1 {
+				simrt.Sleep(int64(time.Minute) - simrt.Now()%int64(time.Minute))
+				if isClosing() {
+					return
+				}
+			}
 			api := o.P % numAPI9
 			pr["api_"+api9Names[api]]++
 			a.call(i, o, func() (int64, error) {
@@ -284,7 +292,7 @@ func runConc9(e *exec) {
 			}
 		case "close":
 			// wait a while, then close everything while the others may still be busy
-			simrt.Sleep(int64(time.Duration(o.X) * 7 * time.Second))
+			simrt.Sleep(int64(time.Duration(o.X) * 67 * time.Second)) // up to nine minutes of traffic, purge ticks and ageing
 			simrt.Close(closing)
 			a.call(i, o, func() (int64, error) {
 				if o.P == 0 {
